@@ -209,6 +209,12 @@ def base_cube(seed, kind):
         a[rs.rand(T, ny, nx) < 0.1] = ND
         a[:, 0, 0] = ND
         a[1:, 0, 1] = ND
+    elif kind == "int0":      # the same kind of cube with the falsy nodata value 0 (valid cells are never 0)
+        a = (3000 + 1500 * np.sin(np.arange(T)[:, None, None] * 0.6 + rs.rand(1, ny, nx) * 6) + rs.randint(-300, 300, (T, ny, nx))).astype("int16")
+        a[a == 0] = 1
+        a[rs.rand(T, ny, nx) < 0.15] = 0
+        a[:, 0, 0] = 0
+        return xr.DataArray(a, dims=("time", "y", "x"), coords={"time": time, "y": np.arange(ny) * 10.0, "x": np.arange(nx) * 5.0}, attrs={"nodata": 0})
     elif kind == "rain":
         a = rs.gamma(1.5, 30, (T, ny, nx)).astype("int16")
         a[rs.rand(T, ny, nx) < 0.15] = 0
@@ -249,6 +255,10 @@ def catalog():
         ("mean_grp", "int", lambda da, aux: da.hdc.algo.mean_grp(grp)),
         ("rolling_sum", "int", lambda da, aux: da.hdc.rolling.sum(3)),
         ("anom_ratio", "int", lambda da, aux: da.hdc.anom.ratio(da.isel(time=0), offset=1)),
+        ("autocorr_nd0", "int0", lambda da, aux: da.hdc.algo.autocorr()),
+        ("mktrend_nd0", "int0", lambda da, aux: da.hdc.algo.mktrend()),
+        ("rolling_sum_nd0", "int0", lambda da, aux: da.hdc.rolling.sum(3)),
+        ("mean_grp_nd0", "int0", lambda da, aux: da.hdc.algo.mean_grp(grp)),
         ("zonal_mean", "int", lambda da, aux: da.hdc.zonal.mean(aux["zones"], [0, 1, 2])),
     ], px, zones
 
